@@ -645,6 +645,12 @@ def plans(tier):
                             if latin:
                                 out.append(({**cfg, **CORE}, 7))    # reduced alphabet, full depth
 
+    # pruning while a reader that is also the writer sits part-way through a multi-record file: tiny alphabet (one write size, read,
+    # read_block), several records per file, budget of two files, searched deep
+    for mode in MODES:
+        out.append(({'mode': mode, 'file_size': 10, 'total_size': 20, 'reader': 'self', 'vias': 'c', 'sizes': (3,), 'rels': '>',
+                     'nav': (), 'dels': ()}, 9 if quick else 11))
+
     return out
 
 
